@@ -145,6 +145,10 @@ def main():
     t0 = time.time()
     sys.setrecursionlimit(10000)
     install_api_time_limits(600 if a.tier == "thorough" else 120)
+    if a.prop in ("C02", "C03", "C05", "C09", "C10", "C13") and hasattr(sys, "set_int_max_str_digits"):
+        # the oracles of these properties are CPython's own `dis` / repr, which refuse a constant longer than the int<->str digit limit; none of the
+        # library code these properties exercise converts ints to text, so the limit is lifted for the checker's process (C07/C15/C12 keep it)
+        sys.set_int_max_str_digits(0)
     out = {"python": list(sys.version_info[:3]), "prop": a.prop, "tier": a.tier, "seed": a.seed, "parts": {}}
     try:
         if a.part in ("corpus", "all") and _checks(a.prop):
